@@ -446,6 +446,9 @@ def run(rep: core.Report):
     from rules import shared_freshwrite
 
     _r15h(rep)
+    from rules import shared_viewupdate
+
+    shared_viewupdate.run(rep, "R15i", ["phonopy/harmonic/dynamical_matrix.py", "phonopy/harmonic/derivative_dynmat.py", "phonopy/harmonic/force_constants.py", "phonopy/harmonic/dynmat_to_fc.py", "phonopy/api_phonopy.py", "phonopy/structure/atoms.py"])
     shared_freshwrite.run(rep, "R15g", ["phonopy/harmonic/dynamical_matrix.py", "phonopy/phonon/group_velocity.py", "phonopy/harmonic/derivative_dynmat.py"], 2)
 
 
